@@ -127,7 +127,7 @@ pub fn install_panic_hook(verbose: bool) {
 			in_callback: in_callback(),
 			thread: std::thread::current().name().unwrap_or("?").to_string(),
 		};
-		if PANIC_VERBOSE.load(Ordering::SeqCst) {
+		if PANIC_VERBOSE.load(Ordering::SeqCst) || rec.in_harness() {
 			eprintln!("[panic] {:?}", rec);
 		}
 		if let Ok(mut g) = PANICS.lock() {
